@@ -41,6 +41,27 @@ func (u *Unit) execCall(s *State, f *Frame, x *ssa.Call) []*State {
 			return u.callFunction(s, f, x, cl.Fn, args, cl.Binds)
 		}
 		u.check(s, "nil", x, "call of nil function value", Not(Eq(ft, IntLit(0))))
+		if u.C == nil || !u.C.PureFuncs {
+			// unknown function value: total (no panic) is assumed; it may write any memory
+			u.Assumed["calls through function values ("+types.TypeString(c.Value.Type(), nil)+") do not panic (their effects are arbitrary)"] = true
+			keep := map[string]*Term{}
+			if u.C != nil && u.C.Opts != nil && u.C.Opts["funcsPreserve"] != "" {
+				// assumption: the function values called here do not write these heaps
+				for _, k := range strings.Split(u.C.Opts["funcsPreserve"], ",") {
+					k = strings.TrimSpace(k)
+					if h, ok := s.Heaps[k]; ok {
+						keep[k] = h
+					}
+				}
+				u.Assumed["function values called in "+shortKey(fnKey(u.Fn))+" do not write heaps "+u.C.Opts["funcsPreserve"]] = true
+			}
+			u.havocEffects(s, &effects{all: true, allocs: true, heaps: map[string]bool{}})
+			for k, h := range keep {
+				s.Heaps[k] = h
+			}
+			f.Vals[x] = u.symbolic(s, "r_fv", resultType(c.Value.Type().Underlying().(*types.Signature)))
+			return nil
+		}
 		// uninterpreted pure total function of its arguments (assumption, listed)
 		u.Assumed["function values ("+types.TypeString(c.Value.Type(), nil)+") are pure, total and deterministic"] = true
 		sig := c.Value.Type().Underlying().(*types.Signature)
